@@ -316,6 +316,44 @@ pub fn parse_and_observe(bytes: &[u8]) -> Result<Pkt, ObsErr> {
     if first != again {
         return Err(ObsErr::Other(format!("the accessors of one parsed value answer differently the second time: {} then {}", first.short(), again.short())));
     }
+    // ... and neither formatting it, nor cloning it, nor comparing it, nor moving it changes what it says: the clone
+    // (of the variants that are `Clone`) equals the original and reads the same; the original, moved to the heap
+    // after all that, still reads the same
+    let _ = crate::engine::run::fp_debug(&p);
+    let cloned: Option<Packet> = match &p {
+        Packet::App(x) => Some(Packet::App(x.clone())),
+        Packet::Bye(x) => Some(Packet::Bye(x.clone())),
+        Packet::Rr(x) => Some(Packet::Rr(x.clone())),
+        Packet::Sr(x) => Some(Packet::Sr(x.clone())),
+        Packet::Sdes(x) => Some(Packet::Sdes(x.clone())),
+        Packet::TransportFeedback(x) => Some(Packet::TransportFeedback(x.clone())),
+        Packet::PayloadFeedback(x) => Some(Packet::PayloadFeedback(x.clone())),
+        Packet::Unknown(_) => None,
+    };
+    if let Some(c) = cloned {
+        let eq = match (&c, &p) {
+            (Packet::App(x), Packet::App(y)) => x == y,
+            (Packet::Bye(x), Packet::Bye(y)) => x == y,
+            (Packet::Rr(x), Packet::Rr(y)) => x == y,
+            (Packet::Sr(x), Packet::Sr(y)) => x == y,
+            (Packet::Sdes(x), Packet::Sdes(y)) => x == y,
+            (Packet::TransportFeedback(x), Packet::TransportFeedback(y)) => x == y,
+            (Packet::PayloadFeedback(x), Packet::PayloadFeedback(y)) => x == y,
+            _ => false,
+        };
+        if !eq {
+            return Err(ObsErr::Other("a clone of the parsed value is not equal (==) to the original".into()));
+        }
+        let oc = obs_packet(&c, bytes.len())?;
+        if oc != first {
+            return Err(ObsErr::Other(format!("a clone of the parsed value reads {} where the original reads {}", oc.short(), first.short())));
+        }
+    }
+    let moved = Box::new(p);
+    let om = obs_packet(&moved, bytes.len())?;
+    if om != first {
+        return Err(ObsErr::Other(format!("after being formatted, cloned, compared and moved the parsed value reads {} where it read {}", om.short(), first.short())));
+    }
     Ok(first)
 }
 
